@@ -132,7 +132,10 @@ def clos_case(where, exit_, cap, nest="body", reg0=False):
     if exit_ == "goto_out":
         body.append(p.label("out"))
     body.append(p.emit([p.str("scope-end")]))
-    scope = p.localfunction("scope", p.func([], p.block(body)))
+    # as a coroutine body the scope function is vararg and resumed with arguments in every other case: its locals
+    # then live above the varargs, in the registers the thread hands back first
+    co_va = exit_.startswith("co_") and (len(where) + len(cap) + len(nest)) % 2 == 0
+    scope = p.localfunction("scope", p.func([], p.block(body), va=co_va, ud=co_va))
     pre.append(scope)
     # ---- how the scope function is run
     if exit_ in ("pcall_error", "pcall_rterror", "nested_pcall"):
@@ -145,7 +148,7 @@ def clos_case(where, exit_, cap, nest="body", reg0=False):
         pre.append(p.emit([p.paren(p.call(p.id("xpcall"), [p.id("scope"), h]))]))
     elif exit_ in ("co_yield", "co_death", "co_error", "co_rterror"):
         pre += [p.local(["co"], [p.call(p.field(p.id("coroutine"), "create"), [p.id("scope")])]),
-                p.emit([p.call(p.field(p.id("coroutine"), "resume"), [p.id("co")])]),
+                p.emit([p.call(p.field(p.id("coroutine"), "resume"), [p.id("co")] + ([p.num(61), p.num(62), p.num(63)] if co_va else []))]),
                 p.emit([p.call(p.field(p.id("coroutine"), "status"), [p.id("co")])])]
     else:
         pre.append(p.emit([p.call(p.id("scope"), [])]))
